@@ -14,6 +14,7 @@ import (
 	"io"
 	"math/rand"
 	"os/exec"
+	"strings"
 	"testing"
 
 	"github.com/welllog/golib/cryptz"
@@ -231,6 +232,42 @@ func runCBC(c cbcCase, r *pb.Rec) error {
 	dec2, err := cryptz.Decrypt(msg, c.Secret)
 	if err != nil || !bytes.Equal(dec2, c.Plain) {
 		return fmt.Errorf("Decrypt(reference message) = %x, %v want %x", dec2, err, c.Plain)
+	}
+	// (c) the same message the way `openssl enc -a` writes it: wrapped at 64 (or 76) columns, every line and the text
+	// itself ended by a line break (LF or CRLF)
+	for _, f := range []struct {
+		cols int
+		nl   string
+	}{{64, "\n"}, {76, "\r\n"}, {64, "\r\n"}} {
+		var wrapped strings.Builder
+		for i := 0; i < len(msg); i += f.cols {
+			wrapped.WriteString(msg[i:min(i+f.cols, len(msg))])
+			wrapped.WriteString(f.nl)
+		}
+		if d, e := cryptz.Decrypt(wrapped.String(), c.Secret); e != nil || !bytes.Equal(d, c.Plain) {
+			return fmt.Errorf("Decrypt of a reference message wrapped at %d columns with %q line ends (%d characters) = %x, %v want %x", f.cols, f.nl, wrapped.Len(), d, e, c.Plain)
+		}
+		if d, e := cryptz.Decrypt([]byte(wrapped.String()), c.Secret); e != nil || !bytes.Equal(d, c.Plain) {
+			return fmt.Errorf("Decrypt of a reference message ([]byte) wrapped at %d columns with %q line ends = %x, %v want %x", f.cols, f.nl, d, e, c.Plain)
+		}
+	}
+	r.ClassIf(len(msg) > 64, "reference message wrapped over several lines")
+	// (d) the function applied to its own output: a ciphertext text is a plaintext like any other (same and other secret)
+	if len(c.Plain)%4 == 1 {
+		for _, outer := range [][]byte{c.Secret, append([]byte("outer"), c.Secret...)} {
+			e2, err := cryptz.Encrypt(append([]byte(nil), enc...), outer)
+			if err != nil {
+				return fmt.Errorf("Encrypt(Encrypt(p,s), s'): %v", err)
+			}
+			raw2, derr := base64.StdEncoding.DecodeString(string(e2))
+			if pt, ok := refDecryptCBC(raw2, outer); derr != nil || !ok || !bytes.Equal(pt, enc) {
+				return fmt.Errorf("Encrypt applied to its own output %q (outer secret %x): the independent decoder gets %q, ok=%v, %v; want the inner text back", enc, outer, pt, ok, derr)
+			}
+			if d, e := cryptz.Decrypt(e2, outer); e != nil || !bytes.Equal(d, enc) {
+				return fmt.Errorf("Decrypt(Encrypt(c, s'), s') with c itself a ciphertext text = %q, %v want %q", d, e, enc)
+			}
+		}
+		r.Class("Encrypt applied to its own output")
 	}
 	// defined string/[]byte types for message and secret: same wire format (decoded by the reference with the
 	// plain secret) and cross-type round trips
